@@ -247,9 +247,28 @@ Print bad.
 MANIFEST = {
     "level_claimed": {
         "category": "proof",
-        "text": "",
+        "text": ("Coq theorems over an executable model of DeliverTx (routing on the extension option -> EVM / non-EVM ante "
+                 "chains as listed by the generated facts -> router with authz / wasm / gov / ICA dispatch -> Keeper.EthereumTx): "
+                 "C02_eth_handler_only_behind_evm_ante and its history form — for EVERY transaction and history, message trees "
+                 "of any depth/shape, any grants and signers, an Ethereum message whose handler ran was a DIRECT message of a tx "
+                 "with the EVM extension option that the EVM ante chain admitted (nonce = sequence and consumed, gas x price "
+                 "prepaid); corollaries C02_nonce_never_rewound and C02_refund_covered_by_prepayment; "
+                 "C02_no_wrapper_reaches_the_eth_handler is the structural induction over message trees with the invariant "
+                 "'no grant has an Ethereum-derived granter'. The ante chains, extension-option arms, registered extension "
+                 "options, guard type tests, wasm handler checks, installed SigGasConsumer and GetSigners shape are re-extracted "
+                 "from /repo on every run and C02_holds_for_current_tree is re-checked. The model is run against real DeliverTx "
+                 "traces (accepted?, which leaves fired EventEthereumTx, per-account nonce/balance deltas, fee-collector delta) "
+                 "and the proved-sound Pb is evaluated on them. Each needed fact has a refutation theorem."),
         "design_ref": "DESIGN.md §5 C02",
     },
-    "level_note": "",
+    "level_note": ("Premises of every theorem (cryptographic / SDK facts, not axioms): Hdisj — module, contract, interchain-account "
+                   "addresses are not Ethereum-key-derived and signature recovery yields Ethereum-derived addresses (world_ok, "
+                   "tx_wf); Hsig — the Cosmos signature path rejects eth_secp256k1 keys (cfg flag tied to the generated fact "
+                   "SigGasConsumer = DefaultSigVerificationGasConsumer, and probed on every run by ~200 Cosmos txs signed with an "
+                   "eth key). The two Nibiru guards are defence in depth and not used by the proof (their presence is a separate "
+                   "obligation). Ethereum leaves are plain transfers (gas used 21000): the interpreter is not modelled; the two "
+                   "per-decorator loops of the EVM chain are folded into one pass per message; ICA is covered by the theorems but "
+                   "not driven. Trusted: Coq kernel + vm_compute; the go/ast extractor (shared with C17); the Go driver and "
+                   "tools/props/c02.py; SDK/wasmd dispatch rules as modelled (pinned by the correspondence)."),
     "technique": "Coq proof (invariant over histories + structural induction over message trees) over generated ante/wasm facts + differential correspondence on DeliverTx traces",
 }
